@@ -32,7 +32,8 @@ PROBES = ["copy_of_copy", "nice_on_scale_with_living_relative",
           "pool_size_5", "drop_then_use_relative", "domain_on_aliased", "range_on_aliased",
           "clamp_on_aliased", "magnitude_tiny", "magnitude_huge", "rejected_call_raised",
           "readonly_op", "unobserved_step", "range_list_edited_in_place_and_passed_again",
-          "foreign_library_activity", "constructed_with_arguments", "getter_to_setter_transfer"]
+          "foreign_library_activity", "constructed_with_arguments", "getter_to_setter_transfer",
+          "range_list_shared_through_constructor"]
 
 RULE = (
     "Each run draws (from one PRNG seeded by sha256(VERIF_SEED:scale:i)) a magnitude regime "
@@ -166,7 +167,7 @@ def gen_plan(rng, tier):
         elif pool < max_pool and rng.random() < 0.3:
             if rng.random() < 0.3:
                 ops.append(["new", "args", _pair(rng, lo, hi, style), _pair(rng, lo, hi, rng.choice([style, "int"])),
-                            rng.random() < 0.3])
+                            rng.random() < 0.3, rng.randrange(pool) if rng.random() < 0.4 else None])
             else:
                 ops.append(["new"])
             pool += 1
@@ -428,7 +429,15 @@ def _run(plan):
         try:
             if kind == "new" and len(op) > 1 and op[1] == "args":
                 # constructor arguments instead of setters (fresh lists, never touched again)
-                new_scale = LinearScale(list(op[2]), list(op[3]), None, op[4])
+                rng_arg = list(op[3])
+                if len(op) > 5 and op[5] is not None and pool:
+                    # the range list another scale reports is handed to the constructor
+                    # (harmless: nobody ever edits a range list in place)
+                    src = pool[op[5] % len(pool)]
+                    rng_arg = src.range()
+                    passed_range[id(src)] = None
+                    bump("probe:range_list_shared_through_constructor")
+                new_scale = LinearScale(list(op[2]), rng_arg, None, op[4])
                 pool.append(new_scale)
                 family.append(next_family)
                 generation.append(0)
